@@ -49,6 +49,11 @@ def main() -> int:
         run.replay_mode = True
         with open(args.replay, encoding='utf8') as f:
             data = json.load(f)
+        want_hs = str(data.get('hashseed', '') or '')
+        if want_hs.isdigit() and os.environ.get('PYTHONHASHSEED') != want_hs:
+            # the recorded run used another hash seed (set iteration order): start again under that one
+            os.environ['PYTHONHASHSEED'] = want_hs
+            os.execv(sys.executable, [sys.executable, '-m', 'rv.cli'] + sys.argv[1:])
         run.seed = bootstrap.SEED = int(data.get('seed', 0))
         run.tier = bootstrap.TIER = data.get('tier', 'quick')
         os.environ['VERIF_SEED'] = str(run.seed)
